@@ -1,5 +1,5 @@
 (* Extraction of the C15 model and specification to OCaml (ExtrOcamlBasic only). *)
 From Coq Require Import ZArith ExtrOcamlBasic.
-Require Import ZV.Model.Templ.
+Require Import ZV.Model.Templ ZV.Model.MacroGen.
 Extraction "model.ml" Z.add Z.mul Z.opp Z.div_eucl Z.of_nat Z.to_nat Z.compare
-  value_eqb sq_model gen_sq run subst elems is_splice reify wf view hshort macro_expand strip.
+  value_eqb sq_model gen_sq run subst elems is_splice reify wf view hshort macro_expand strip gen_fn chk.
